@@ -31,6 +31,10 @@ def run(ctx):
         closure(ctx, exe, "s3w2u2", 3, 2, 2, not stray, stray, props)
         n, steps = (4, 3, 3), 30000
     impl_phase(ctx, "rand", exe, ["random", ctx.seed, steps, 2], [n[0], n[1], n[2], 1, 0], "TracePtr", "", consts(*n), props)
+    if stray:
+        # array objects: the same probes from every state of the C14 closure
+        from . import p_arr
+        p_arr.run_c14(ctx, props, stray=True)
     ctx.assumptions += [
         "TLC and the TLA+ text of Contract / LifeOK / StrayAborts in PtrOps.tla are trusted",
         "allocator events and liveness come from the link-time interposer; the clear callback is the driver's",
